@@ -13,7 +13,7 @@ CHECKS = {
             "§5 C18"),
     "C15": ("model_checking",
             "deviation-bounded exhaustive exploration of field assignments of 47 typed models (absent/default/other per field incl. reals beyond 32 bits, all enum variants, nested models, unknown keys, int-vs-real spelling) and of typed streams over 14 filter chains through the real reader and writer on a real Storage",
-            "For every model that can be read and written the explorer enumerates all dictionaries within 5 (quick) / 8 (thorough) field deviations of the minimal valid one; oracle p0 -> T -> p1 -> T -> p2 with p1 == p2, and for catch-all models every input entry preserved (recursively, up to omitted defaults, int == real, equal dates). A guard keeps the table in step with the #[pdf(key)] attributes in the sources.",
+            "For every model that can be read and written the explorer enumerates all dictionaries within 5 (quick) / 8 (thorough) field deviations of the minimal valid one; oracle p0 -> T -> p1 -> T -> p2 with p1 == p2, and for catch-all models every input entry preserved (recursively, up to omitted defaults, int == real, equal dates). Typed values of the hand-written models (destinations of every view with coordinates absent / 0 / -0 / positive / negative, rectangles, matrices, dates, encodings) are also built through their public fields, written, read back and written again. A guard keeps the table in step with the #[pdf(key)] attributes in the sources.",
             "Trusted: the harness-side model table (checked against the sources by the guard). Writers that are unimplemented (NameTree, Function, ColorSpace) are outside the property; fields needing resolvable targets stay absent.",
             "§5 C15"),
     "C01": ("fault_enumeration",
@@ -28,17 +28,17 @@ CHECKS = {
             "§5 C14"),
     "C13": ("model_checking",
             "stateless model checking of real threads under a controlled (baton-passing) scheduler: every interleaving at the resolver's and the cache's synchronisation points up to a preemption bound (iterative context bounding), executed in worker processes, compared with sequential answers",
-            "2-3 real threads run 1-3 load calls each (typed loads, page look-up, resolves of compressed objects of two object streams, mutually referring objects) on one open document (shared resolver or one each; no caches or instrumented compute-once caches); every schedule with <=2 (quick) / <=3 (thorough) preemptions for 2 threads and <=1 / <=2 for 3 threads is executed; oracle: every answer equals the call run alone, no panic, no deadlock (no enabled thread while some are blocked), no process abort, resolver usable afterwards; failing schedules are replayed and must reproduce; replay divergence is a machinery error.",
+            "2-3 real threads run 1-3 load calls each (typed loads, page look-up, resolves of compressed objects of two object streams, mutually referring objects, a ring of three entered by three threads) on one open document (shared resolver or one each; no caches or instrumented compute-once caches); every schedule with <=2 (quick) / <=3 (thorough) preemptions for 2 threads and <=1 / <=2 for 3 threads is executed; oracle: every answer equals the call run alone, no panic, no deadlock (no enabled thread while some are blocked), no process abort, resolver usable afterwards; failing schedules are replayed and must reproduce; replay divergence is a machinery error.",
             "Trusted: scheduling points suffice because the only shared mutable state is the guard stack behind its mutex (under the feature every mutex of the module is a schedulable one with a point before each lock and inside each critical section, so lock/try_lock contention and everything that may happen between two critical sections is explored) and the caches; VerifCache is bound to globalcache's SyncCache::get by source hash and by sequential trace comparison (plus a non-deciding free-running run in thorough). once_cell in Lazy::load is not covered.",
             "§5 C13"),
     "C12": ("model_checking",
-            "exhaustive enumeration of read-call sequences (all sequences up to length 3 over a 40-call alphabet, all permutations of the calls per object, all ordered pairs over a wide alphabet of every typed view and resolve on every object) x 5 cache configurations, with strict and with tolerant options, on three generated documents (the third one a 70-deep /Parent chain with cyclic nodes and two objects that call themselves by the same number), plus complete cached-vs-uncached walks of the repository corpus, each answer compared with the same call alone on a fresh uncached document",
+            "exhaustive enumeration of read-call sequences (all sequences up to length 3 over a 40-call alphabet, all permutations of the calls per object, all ordered pairs over a wide alphabet of every typed view and resolve on every object) x 5 cache configurations, with strict and with tolerant options, on four generated documents (the third a 70-deep /Parent chain with cyclic nodes and two objects that call themselves by the same number, the fourth encrypted with an indirect encryption dictionary), plus complete cached-vs-uncached walks of the repository corpus, each answer compared with the same call alone on a fresh uncached document",
             "The answer to a call must not depend on history or cache configuration: every sequence of <=2 calls under five configurations (SyncCache both / object only / stream only / own map-backed caches / none), every sequence of 3 under two (thorough: all) configurations and every ordering of the distinct calls on one object are executed on the real library; digests are canonical (no HashMap order, no offsets).",
             "Trusted: digest functions. The call alphabets are fixed (typed loads as 8 types incl. mismatches and the generic Primitive / Dictionary / i32 views, stream data, image data before/after the codec, page look-ups); longer sequences are not enumerated.",
             "§5 C12"),
     "C10": ("model_checking",
             "deviation-bounded exhaustive exploration of PdfBuilder inputs (pages, operation sets, boxes, rotation, extras, resources, info) with two oracles per build: a reload through the library and an independent structural reader",
-            "All builder inputs within 4 (quick) / 5 (thorough) deviations of the canonical one-page document are built with the real PdfBuilder; the output must reload with equal page count/order/boxes/rotation/extras/operations/resources/info and must pass an independent byte-level validation (header, startxref, every xref entry -> matching object header, /Size, every /Length, no dangling reference).",
+            "All builder inputs within 4 (quick) / 5 (thorough) deviations of the canonical one-page document (incl. names made of number signs and delimiters, strings with parentheses out of order, coordinates below 1e-4 and above 1e16) are built with the real PdfBuilder; the output must reload with equal page count/order/boxes/rotation/extras/operations/resources/info and must pass an independent byte-level validation (header, startxref, every xref entry -> matching object header, /Size, every /Length, no dangling reference).",
             "Trusted: the independent reader (refread.rs) and the C08 canonical comparator. More than 3 pages or more simultaneous deviations are not covered.",
             "§5 C10"),
     "C09": ("model_checking",
@@ -73,12 +73,12 @@ CHECKS = {
             "§5 C17"),
     "C07": ("model_checking",
             "exhaustive enumeration of all ordered page trees up to 7/8 nodes with bounded deviations of inheritable-attribute placement, generated as real files and checked against a DFS/nearest-ancestor reference model, cached and uncached",
-            "Every rooted ordered tree up to the node bound (pages and empty Pages nodes anywhere) is generated exactly once with accurate counts and parent links and scrambled object numbers; attribute placement is explored to 2 (quick) / 3 (thorough) simultaneous deviations from 'root only'; chains to depth 12 with side pages; every index 0..count+2 is requested.",
+            "Every rooted ordered tree up to the node bound (pages and empty Pages nodes anywhere) is generated exactly once with accurate counts and parent links and scrambled object numbers; attribute placement is explored to 2 (quick) / 3 (thorough) simultaneous deviations from 'root only'; and of where values are stored (/Kids, boxes, resources, /Count as indirect objects); chains to depth 12 with side pages; every index 0..count+2 is requested.",
             "Trusted: reference model (DFS leaf order, nearest tagged ancestor). Trees with more nodes or fan-out beyond the bound are not covered; depth beyond 12 is outside the property.",
             "§5 C07"),
     "C11": ("model_checking",
             "exhaustive enumeration of storage twins: every catalogue value x object-stream position x trailing white-space as a full product with bounded deviations of filter, /First padding, neighbour kinds and update placement; real files resolved through the real reader",
-            "Every value kind is placed both as a direct object and inside an object stream (only/first/middle/last, each trailing white-space form incl. none at the end of the stream data, 5 object-stream filters, every neighbour kind) and both references must resolve to the producer's value; stream data must not depend on whether /Length is direct, an indirect direct-object integer (before/after) or an integer inside an object stream.",
+            "Every value kind is placed both as a direct object and inside an object stream (only/first/middle/last, each trailing white-space form incl. none at the end of the stream data, 5 object-stream filters, /First beyond the header or with no separator at all, every neighbour kind, plain and encrypted documents) and both references must resolve to the producer's value; stream data must not depend on whether /Length is direct, an indirect direct-object integer (before/after) or an integer inside an object stream.",
             "Trusted: the assembler's object-stream writer. Bound: <=1 (quick) / <=2 (thorough) simultaneous deviations of filter/padding/neighbours.",
             "§5 C11"),
     "C02": ("model_checking",
